@@ -78,6 +78,9 @@ type Machine struct {
 	Stubs                                     map[string]*ssa.Function // full function name -> replacement (per-harness stubs of /repo functions)
 	NoopPkgs                                  func(pkgPath string) bool
 	vfiles                                    map[string]Str
+	vmtime                                    map[string]*Term
+	vlinks                                    map[string]string
+	vclock                                    *Term
 	CrossEvery                                int // cross-check every n-th assertion query with z3-new and cvc5 (0 = never)
 	crossCount                                int
 	CrossChecked, CrossAgreed, CrossUndecided int
